@@ -55,20 +55,22 @@ UNIT = {
         lx('is_next_additional_name_symbol', ret='r', requires=[('wf', WFS)], ensures=nxt('g_additional_name_symbol')),
         lx('is_next_character', ret='r', loops=1, requires=[('wf', WFS), ('offset', 'offset <= self.input@.len()')],
            loop_specs={0: {'invariant': [('wf', WFS), ('offset', 'offset <= self.input@.len()')], 'decreases': 'self.input@.len() - offset'}}),
-        lx('consume_name', ret='r', loops=2, attrs='#[verifier::exec_allows_no_decreases_clause]\n#[verifier::rlimit(200)]',
+        lx('consume_name', ret='r', loops=3, attrs='#[verifier::exec_allows_no_decreases_clause]\n#[verifier::rlimit(200)]',
            requires=[('wf', WF0), ('at_name_start', 'old(self).position < old(self).input@.len() ==> g_name_part(old(self).input@[old(self).position as int])')],
            body_prefix='proof { reveal_strlit(""); }\nbroadcast use vstd::std_specs::hash::group_hash_axioms;\nbroadcast use group_string_keys;\nproof { axiom_string_key_model(); }',
            ensures=[('frame', 'final(self).input == old(self).input && final(self).scope == old(self).scope'),
                     ('wf', 'lx_wf(final(self).position, final(self).input@)'),
                     ('longest_bound_name', 'r is Ok ==> exists |parts: Seq<String>, cp: Seq<usize>, end: int| #[trigger] name_scan(old(self).input@, old(self).position as int, parts, cp, end) '
-                                           '&& name_token(old(self).input@, scope_keys(*old(self).scope), old(self).till_in, parts, cp, end, r->Ok_0.0, r->Ok_0.1, final(self).position as int, final(self).till_in)')],
+                                           '&& name_token(old(self).input@, scope_keys(*old(self).scope), old(self).till_in, old(self).type_name, parts, cp, end, r->Ok_0.0, r->Ok_0.1, final(self).position as int, final(self).till_in, final(self).type_name)')],
            splices=[{'id': 'pushed_first_word', 'op': 'after', 'anchor': 'consumed_positions.push(self.position);', 'nth': 0, 'text': PUSHED},
                     {'id': 'pushed_word', 'op': 'after', 'anchor': 'consumed_positions.push(self.position);', 'nth': 1, 'text': PUSHED},
                     {'id': 'pushed_symbol', 'op': 'after', 'anchor': 'parts.push(current_part.clone());', 'nth': 2, 'text': PUSHED},
                     {'id': 'scan_end', 'op': 'before', 'anchor': 'if let Some(part_name) = parts.get(0) {', 'text': 'let ghost end0 = self.position;\nlet ghost parts_all = parts@;'},
                     {'id': 'item_pos', 'op': 'before', 'anchor': 'self.position = consumed_positions[0] + 1;', 'text': 'proof { assert(part_ok(self.input@, old(self).position as int, parts@, consumed_positions@, 0)); }'},
                     {'id': 'in_pos', 'op': 'before', 'anchor': 'parts.truncate(index);', 'text': 'proof { assert(part_ok(self.input@, old(self).position as int, parts@, consumed_positions@, index - 1)); assert(first_in(parts_all, index as int)); }'},
-                    {'id': 'match_pos', 'op': 'before', 'anchor': 'self.position = consumed_positions[part_count - 1] + 1;', 'text': 'proof { assert(part_ok(self.input@, old(self).position as int, parts@, consumed_positions@, part_count - 1)); assert(longest_match(parts_all, scope_keys(*old(self).scope), part_count as int)); }'},
+                    {'id': 'type_pos', 'op': 'before', 'anchor': 'self.position = consumed_positions[part_count - 1] + 1;', 'nth': 1,
+                     'text': 'proof { assert(part_ok(self.input@, old(self).position as int, parts@, consumed_positions@, part_count - 1)); assert(longest_type(parts_all, part_count as int)); }'},
+                    {'id': 'match_pos', 'op': 'before', 'anchor': 'self.position = consumed_positions[part_count - 1] + 1;', 'nth': 0, 'text': 'proof { assert(part_ok(self.input@, old(self).position as int, parts@, consumed_positions@, part_count - 1)); assert(longest_match(parts_all, scope_keys(*old(self).scope), part_count as int)); }'},
                     ],
            loop_specs={0: {'body_prefix': 'let ghost parts0 = parts@;\nlet ghost cp0 = consumed_positions@;',
                            'invariant': [
@@ -95,7 +97,13 @@ UNIT = {
                              ('frame', 'self.input == old(self).input && self.scope == old(self).scope && self.till_in == old(self).till_in && self.type_name == old(self).type_name'),
                              ('keys', 'forall |k: String| #[trigger] flattened_keys@.contains(k) <==> scope_keys(*self.scope).contains(k@)'),
                              ('scan', 'name_scan(self.input@, old(self).position as int, parts@, consumed_positions@, self.position as int)'),
-                             ('longer_prefixes_unbound', 'part_count <= parts@.len() && forall |k2: int| part_count < k2 <= parts@.len() ==> !scope_keys(*self.scope).contains(#[trigger] flat(parts@.subrange(0, k2)))')]}},
+                             ('longer_prefixes_unbound', 'part_count <= parts@.len() && forall |k2: int| part_count < k2 <= parts@.len() ==> !scope_keys(*self.scope).contains(#[trigger] flat(parts@.subrange(0, k2)))')]},
+                       2: {'invariant': [
+                             ('frame', 'self.input == old(self).input && self.scope == old(self).scope && self.till_in == old(self).till_in && self.type_name == old(self).type_name && self.type_name'),
+                             ('all_parts', 'parts@ == parts_all && self.position == end0 && lx_wf(self.position, self.input@)'),
+                             ('scan', 'name_scan(self.input@, old(self).position as int, parts@, consumed_positions@, self.position as int)'),
+                             ('no_tweak_applies', 'parts_all[0]@ != "item"@ && !(old(self).till_in && exists |i: int| first_in(parts_all, i)) && no_match(parts_all, scope_keys(*old(self).scope)) && name == name_of_parts(parts_all)'),
+                             ('longer_prefixes_are_not_type_names', 'part_count <= parts@.len() && forall |k2: int| part_count < k2 <= parts@.len() ==> !is_type_name(name_of_parts(#[trigger] parts@.subrange(0, k2)))')]}},
            rewrites=[('RX', 'R14', r'let mut parts = vec!\[\];', 'let mut parts: Vec<String> = vec![];', 1),
                      ('RX', 'R14', r'let mut consumed_positions = vec!\[\];', 'let mut consumed_positions: Vec<usize> = vec![];', 1),
                      ('RX', 'R11', r'part_name == "item"', 'string_is(part_name, "item")', 1),
@@ -106,7 +114,8 @@ UNIT = {
                      ('RX', 'R11', r'let name: Name = parts\.to_vec\(\)\.into\(\);', 'let name: Name = name_from_parts(parts.as_slice());', 1),
                      ('RX', 'R11', r'&parts\[\.\.part_count\]', 'vstd::slice::slice_subrange(parts.as_slice(), 0, part_count)', 1),
                      ('RX', 'R8', r'self\.scope\.flatten_keys\(\)', 'scope_flatten_keys(self.scope)', 1),
-                     ('RX', 'R11', r'matches!\(\s*name\.to_string\(\)\.as_str\(\),\s*((?:"[^"]*"\s*\|?\s*)+)\)', lambda m: 'name_is_one_of(&name, &[%s])' % ', '.join(x.strip() for x in m.group(1).split('|')), 1),
+                     ('RX', 'R11', r'matches!\(\s*type_name\.to_string\(\)\.as_str\(\),\s*((?:"[^"]*"\s*\|?\s*)+)\)', lambda m: 'name_is_one_of(&type_name, &[%s])' % ', '.join(x.strip() for x in m.group(1).split('|')), 1),
+                     ('RX', 'R11', r'let type_name: Name = parts\[\.\.part_count\]\.to_vec\(\)\.into\(\);', 'let type_name: Name = name_from_parts(vstd::slice::slice_subrange(parts.as_slice(), 0, part_count));', 1),
                      ('RX', 'R11', r'let name_str = name\.to_string\(\);', '', 1),
                      ('RX', 'R11', r'matches!\(name_str\.as_str\(\), ((?:"[^"]*"\s*\|?\s*)+)\)', lambda m: 'name_is_one_of(&name, &[%s])' % ', '.join(x.strip() for x in m.group(1).split('|')), 2),
                      ]),
